@@ -548,6 +548,11 @@ func (fc *funcContext) ResolveForwardGoto(target *gotoLabelDesc) {
 
 func (fc *funcContext) NewLabel() int {
 	ret := fc.labelId
+	if ret > opMaxArgBx-opMaxArgSbx {
+		// a jump carries the id of its label in its sBx operand until patchCode replaces it by the
+		// distance: a larger id would wrap around and select another label
+		raiseCompileError(fc, fc.Proto.LineDefined, "control structure too long")
+	}
 	fc.labelId++
 	return ret
 }
